@@ -561,6 +561,45 @@ var c06Families = []c06Family{
 		ctx.Eval("extreme-range:" + call + fmt.Sprint(k/len(c06ExtremeRanges)))
 		return fw.Result{Verdict: fw.Held}
 	}},
+	{"deep-call-errors", func(tier string) int { return len(c06CallDepths) * 6 }, func(ctx *fw.Ctx, k int) fw.Result {
+		// a failure (or none) below n nested calls, n around the sizes a table of call frames might have: through one
+		// template that calls itself along a list, and through a chain of n templates
+		n := c06CallDepths[k%len(c06CallDepths)]
+		variant := k / len(c06CallDepths)
+		var src strings.Builder
+		src.WriteString("{namespace deep}\n")
+		tail := []string{"{$u.x.y}", "end", "{1 < 'a'}"}[variant%3]
+		if variant < 3 {
+			src.WriteString("/**\n * @param items\n * @param i\n * @param? u\n */\n{template .walk}\n{if $i < length($items)}{$items[$i]},{call .walk}{param items: $items /}{param i: $i + 1 /}{/call}{else}" + tail + "{$u ?: ''}{/if}\n{/template}\n")
+		} else {
+			for t := 0; t < n; t++ {
+				fmt.Fprintf(&src, "/** @param? u */\n{template .c%d}%d,{call .c%d data=\"all\" /}{/template}\n", t, t, t+1)
+			}
+			fmt.Fprintf(&src, "/** @param? u */\n{template .c%d}%s{$u ?: ''}{/template}\n", n, tail)
+		}
+		files := []srcFile{{"deep.soy", src.String()}}
+		d := map[string]ref.Value{}
+		entry := "deep.c0"
+		if variant < 3 {
+			items := ref.Value{K: ref.KList, ID: 9100}
+			for q := 0; q < n; q++ {
+				items.L = append(items.L, ref.Int(int64(q)))
+			}
+			d["items"], d["i"] = items, ref.Int(0)
+			entry = "deep.walk"
+		}
+		ctx.Cell("deep-calls")
+		ok, rerr := totalRender(ctx, files, nil, entry, d, nil, k%2 == 0)
+		if ok && rerr == nil && tail != "end" {
+			// (the other direction is not judged: some shards run with obligatory print directives that cannot be applied)
+			return fw.Result{Verdict: fw.Violated, Key: "deep-call-error-lost", Case: fmt.Sprintf("%d nested calls, tail %s", n, tail), Msg: fmt.Sprintf("%d nested calls ending in %q: Render returned %v", n, tail, errText(rerr))}
+		}
+		if ok && rerr != nil {
+			ctx.Obs("errors_from_nested_calls", 1)
+		}
+		ctx.Eval(fmt.Sprintf("deep:%d:%d", n, variant))
+		return fw.Result{Verdict: fw.Held}
+	}},
 	{"api-misuse", func(tier string) int { return 13 * 18 }, func(ctx *fw.Ctx, k int) fw.Result {
 		tofu, err := compile([]srcFile{{"m.soy", "{namespace m}\n/** @param? x */\n{template .t}{$x ?: 'd'}{/template}\n/** */\n{template .b}b{/template}\n/** */\n{template .k}{call .b/}{/template}\n"}}, nil)
 		if err != nil {
@@ -586,6 +625,8 @@ var c06Families = []c06Family{
 		return fw.Result{Verdict: fw.Held}
 	}},
 }
+
+var c06CallDepths = []int{1, 5, 31, 32, 33, 63, 64, 65, 66, 100, 127, 128, 129, 255, 256, 257, 300, 1000, 2000}
 
 const c06MaxInt, c06MinInt = "9223372036854775807", "(-9223372036854775807 - 1)"
 
